@@ -6,7 +6,9 @@
    and require a VIOLATION of that property naming that rule and construct.
 2. seeded changes: for every /verif/seeded/<id>/, apply patch.diff to a scratch worktree of HEAD
    and require a VIOLATION of the property it breaks (meta.json: property, expect_rules).
-Usage: selftest.py [fixed|seeded|all] [filter]
+3. refactorings: for every /verif/refactorings/<id>/patch.diff (behaviour-preserving edits written by
+   independent sub-agents) all 20 checks must stay silent.
+Usage: selftest.py [fixed|seeded|refactorings|all] [filter]
 """
 import json, os, subprocess, sys, tempfile, shutil, re
 
@@ -89,6 +91,34 @@ def seeded(flt):
             drop(d)
     return bad
 
+def refactorings(flt):
+    """behaviour-preserving refactorings written by independent sub-agents: every check must stay silent"""
+    bad = 0
+    root = VERIF + '/refactorings'
+    props = [json.loads(l)['id'] for l in open(VERIF + '/properties.jsonl')]
+    for name in sorted(os.listdir(root)) if os.path.isdir(root) else []:
+        if flt and flt not in name:
+            continue
+        patch = os.path.join(root, name, 'patch.diff')
+        d = worktree('HEAD')
+        try:
+            if subprocess.call(['git', '-C', d, 'apply', patch], stderr=subprocess.DEVNULL) != 0:
+                print(f"SKIP    {name}: patch does not apply to HEAD")
+                continue
+            alarms = []
+            for p in props:
+                rc, out = run_check(p, d)
+                alarms += [re.sub(r'replay=\S+ ', '', l) for l in out.splitlines() if l.startswith('VIOLATION')]
+            if alarms:
+                bad += 1
+                print(f"FALSE-ALARM {name}: " + '; '.join(alarms[:3]))
+            else:
+                print(f"silent  {name} (all {len(props)} checks)")
+        finally:
+            drop(d)
+    return bad
+
+
 if __name__ == '__main__':
     what = sys.argv[1] if len(sys.argv) > 1 else 'all'
     flt = sys.argv[2] if len(sys.argv) > 2 else ''
@@ -97,5 +127,7 @@ if __name__ == '__main__':
         bad += fixed(flt)
     if what in ('seeded', 'all'):
         bad += seeded(flt)
+    if what in ('refactorings', 'all'):
+        bad += refactorings(flt)
     print('selftest:', 'OK' if bad == 0 else f'{bad} problem(s)')
     sys.exit(1 if bad else 0)
